@@ -13,6 +13,7 @@ import (
 	ebu "github.com/jilio/ebu"
 	"github.com/jilio/ebu/stores/sqlite"
 
+	"verif/harness/internal/faultsql"
 	"verif/harness/internal/vk"
 )
 
@@ -33,6 +34,8 @@ func TestC12PrunedLog(t *testing.T) {
 	os.MkdirAll(scratch, 0o755)
 	n := run.Scale(60, 2000)
 	ctx := context.Background()
+	restoreOpener := faultsql.Install()
+	defer restoreOpener()
 	for i := 0; i < n; i++ {
 		if !run.Mine(i) {
 			continue
@@ -90,6 +93,21 @@ func TestC12PrunedLog(t *testing.T) {
 			ebu.Publish(bus, prOrder{N: 100 + life})
 			want = append(want, 100+life)
 			st.Close()
+			if life == 2 && i%2 == 0 {
+				// a life in which the lookup of the saved position fails while its row is being
+				// read: the id cannot attach (or attaches at its saved position) - nothing that
+				// was already handled is handled again
+				st, bus = open()
+				faultsql.Set(faultsql.Plan{Match: "subscription_positions", QueryN: 0, FailRow: 1})
+				serr := ebu.SubscribeWithReplay(ctx, bus, "orders", func(o prOrder) { got = append(got, o.N) })
+				_, fired := faultsql.Stats()
+				faultsql.Set(faultsql.Plan{})
+				run.Count("lives_with_a_failing_position_lookup", int64(fired))
+				if serr == nil && fired > 0 {
+					run.Count("attached_despite_the_failing_lookup", 1)
+				}
+				st.Close()
+			}
 		}
 		if fmt.Sprint(got) != fmt.Sprint(want) {
 			run.Violation("resume:pruned-log-not-exactly-once-in-order", fmt.Sprintf("SQLite log (stream batch size %d) of %d orders and %d noise events with the rows at positions %v deleted before the subscription first attached: over two lives the subscription received %v, the remaining orders plus the live ones are %v", sb, total, total, drop, got, want),
